@@ -243,8 +243,11 @@ class Ranges:
             return self
         it = range(min(r['n1'] for r in rng), max(r['n2'] for r in rng) + 1)
         it = ['{0}:{0}'.format(_index2col(c)) for c in it]
-        spl = (self & Ranges().pushes(it))._merge()
-        return spl
+        spl = ()
+        for sheet_id in dict.fromkeys(r['sheet_id'] for r in rng):
+            ctx = {'sheet_id': sheet_id}
+            spl += (self & Ranges().pushes(it, context=ctx))._merge().ranges
+        return Ranges(spl, self.values)
 
     def _merge(self):
         # noinspection PyPep8
